@@ -45,6 +45,7 @@ def _strip(t):
 def run(fb, rep, tier):
     c1_links(fb, rep)
     c2_serialize(fb, rep)
+    c2b_log_replay(fb, rep)
     c3_change_detection(fb, rep)
     c4_set_ordering(fb, rep)
     c5_recompute_dependencies(fb, rep)
@@ -205,6 +206,35 @@ def c2_serialize(fb, rep):
         need = NODE + ('::deSerialize' if op == 'read' else '::serialize')
         has = any(e.get('k') == 'call' and cname(e) == need for _, _, e in f.events())
         rep.ob(clause, 'K2 must-call', '%s converts records with BookNode::%s' % (nm.split('::')[-1], need.split('::')[-1]), has, f.where, '', f.sname)
+
+
+def c2b_log_replay(fb, rep):
+    """K10 writer/reader agreement of the backup log: writeBackup appends a record every time a node is created or gets
+    a search result, so one position has several records in the file and the last one is the current one.  The reader must
+    therefore let a later record replace an earlier one (map[key] = node); a keep-first insertion restores every node to
+    the state in which it first appeared (all scores invalid) - the reloaded book is not the saved one."""
+    clause = 'C19.2'
+    rd = fb.find1('BookBuild::Book::readFromFile')
+    wb = fb.find1('BookBuild::Book::writeBackup')
+    if rep.need(clause, rd, 'Book::readFromFile') is None or rep.need(clause, wb, 'Book::writeBackup') is None:
+        return
+    appends = any(n.get('k') == 'var' and str(n.get('q', '')).endswith('::app') or (n.get('k') == 'var' and n.get('n') == 'app')
+                  for _, _, e in wb.events() for n in walk(e))
+    rep.ob(clause, 'K10 writer/reader agreement', 'writeBackup appends to the backup file (several records per position can exist)', appends, wb.where, '', wb.sname)
+    over, keep = [], []
+    for b, i, e in rd.events():
+        if e.get('k') != 'call':
+            continue
+        last = cname(e).split('::')[-1]
+        r = _strip(e.get('recv'))
+        if last == 'operator=' and isinstance(r, dict) and r.get('k') == 'call' and r.get('op') == '[]' and (ap(r.get('recv')) or '').endswith('.bookNodes'):
+            over.append(e)
+        if last in ('insert', 'emplace', 'try_emplace', 'emplace_hint') and (ap(r) or '').endswith('.bookNodes'):
+            keep.append(e)
+        if last == 'insert_or_assign' and (ap(r) or '').endswith('.bookNodes'):
+            over.append(e)
+    rep.ob(clause, 'K10 writer/reader agreement', 'readFromFile lets a later record of a position replace the earlier one', bool(over) and not keep, R.site(rd, (keep or over or [{}])[0]) if (keep or over) else rd.where,
+           '%d replacing store(s), %d keep-first insertion(s) into bookNodes' % (len(over), len(keep)), rd.sname)
 
 
 def c3_change_detection(fb, rep):
